@@ -22,6 +22,8 @@
 (*   reply    mpt_reply_deferrable context (metatype + deferred handles)    *)
 (*   rawdata  mpt_rawdata_create (with one stage of values inside)          *)
 (*   stream   mpt_stream_input on a socket pair                             *)
+(*   outlocal, outremote   mpt_output_local / mpt_output_remote             *)
+(*   iterfile mpt_iterator_filename (shareable and clonable)                *)
 (*   geninfo  mpt_meta_geninfo  (not shareable: addref answers 0)           *)
 (*   metabuf  mpt_meta_buffer   (not shareable, clonable)                   *)
 (*   cxxref   C++ reference<T>::type with reference<T> handles              *)
@@ -44,17 +46,17 @@ Objs    == 1..NObj
 
 ---------------------------------------------------------------------------
 (* what each kind offers *)
-MetaKinds   == {"hmeta", "reply", "rawdata", "stream", "geninfo", "metabuf"}
-Sharable(k) == k \in {"buf", "hmeta", "reply", "rawdata", "stream", "cxxref"}
-Clonable(k) == k \in {"hmeta", "geninfo", "metabuf"}
+MetaKinds   == {"hmeta", "reply", "rawdata", "stream", "geninfo", "metabuf", "outlocal", "outremote", "iterfile"}
+Sharable(k) == k \in {"buf", "hmeta", "reply", "rawdata", "stream", "cxxref", "outlocal", "outremote", "iterfile"}
+Clonable(k) == k \in {"hmeta", "geninfo", "metabuf", "iterfile"}
 Pokable(k)  == k \in {"hmeta", "cxxref"}
 CntSeen(k)  == k \in {"hmeta", "cxxref"}          \* the driver can read the counter
 CopyVias(k) == IF k = "buf" THEN {"clone", "traits", "cxx", "cxxctor"}
                ELSE IF k = "cxxref" THEN {"cxx", "cxxctor"}
-               ELSE IF k \in MetaKinds THEN {"conv", "traits", "cxx", "cxxctor"} ELSE {}
+               ELSE IF k \in MetaKinds THEN {"conv", "value", "valueptr", "traits", "cxx", "cxxctor"} ELSE {}
 DropVias(k) == IF k = "buf" THEN {"clone", "fini", "raw", "cxx"}
                ELSE IF k = "cxxref" THEN {"cxx"}
-               ELSE IF k \in MetaKinds THEN {"conv", "fini", "raw", "cxx"} ELSE {}
+               ELSE IF k \in MetaKinds THEN {"conv", "value", "fini", "raw", "cxx"} ELSE {}
 HasCxx(k)   == k # "bare"
 HasArr(k)   == k = "buf" \/ k \in MetaKinds
 Construct(via) == via \in {"traits", "cxxctor"}    \* the destination is raw storage
@@ -98,6 +100,7 @@ Answer(a, arg, ret, gone, val) ==
                                               THEN Bit(HRefsOf(holds', copyh', hascopy', o) + extra'[o] + defer'[o] > 1) ELSE -1],
                    val    |-> val,
                    bare   |-> IF kind = "bare" THEN cnt'[1] ELSE -1,
+                   badfree |-> 0,   \* nothing is ever released that is not a live allocation
                    quiet  |-> IF ~hascopy' /\ \A o \in Objs : HRefsOf(holds', copyh', hascopy', o) + extra'[o] + defer'[o] = 0
                               THEN 0 ELSE -1]]   \* nothing refers to anything: nothing may stay allocated
 
@@ -130,7 +133,7 @@ Copy(h, g, via) ==
                /\ Answer("copy", arg, "any", m.gone, -1)
           ELSE Same /\ Answer("copy", arg, "refused", <<>>, -1)
      ELSE LET m1 == IF t = 0 THEN M0 ELSE MRaise(M0, t)
-              m2 == IF AsFound /\ via = "conv" THEN MTryRaise(m1, o) ELSE MLower(m1, o) IN
+              m2 == IF AsFound /\ via \in {"conv", "value", "valueptr"} THEN MTryRaise(m1, o) ELSE MLower(m1, o) IN
           /\ holds' = [holds EXCEPT ![h] = t] /\ SetM(m2)
           /\ UNCHANGED <<copyh, hascopy, extra, defer, made>>
           /\ Answer("copy", arg, "ok", m2.gone, -1)
@@ -283,7 +286,7 @@ InitKind(k) ==
   /\ obs = [a |-> "init", arg |-> [kind |-> k, nh |-> NH, nobj |-> NObj, max |-> Max],
             exp |-> [ret |-> "ok", href |-> [h \in Handles |-> 0], copy |-> [h \in Handles |-> 0],
                      alive |-> [o \in Objs |-> 0], gone |-> <<>>, cnt |-> [o \in Objs |-> -1],
-                     shared |-> [o \in Objs |-> -1], val |-> -1, bare |-> IF k = "bare" THEN 1 ELSE -1, quiet |-> 0]]
+                     shared |-> [o \in Objs |-> -1], val |-> -1, bare |-> IF k = "bare" THEN 1 ELSE -1, badfree |-> 0, quiet |-> 0]]
 Init == \E k \in Kinds : InitKind(k)
 
 PokeVals(o) == {Max - 1, Max} \cup (IF HRefs(o) + defer[o] >= 1 THEN {HRefs(o) + defer[o]} ELSE {})
